@@ -27,6 +27,7 @@ ASSUMPTIONS = [
     'keys are str; split_char stays "/"',
 ]
 FINDINGS = {}
+FUZZ_RUNS = 20000      # thorough tier: coverage-guided stage (vlib/fuzz.py), when atheris is installed
 NAMES = ['a', 'b', 'c', 'k', '', ' ', 'a.b', 'é']
 
 
